@@ -366,8 +366,10 @@ func CopyDir(src, dst string) error {
 }
 
 func headTail(s string) string {
-	if len(s) <= 1600 {
+	// the head must hold the whole stack of the panicking goroutine whatever the length of the source paths:
+	// failures of a retrying child are classified by the frames it died in
+	if len(s) <= 4800 {
 		return s
 	}
-	return s[:900] + "\n…\n" + s[len(s)-600:]
+	return s[:4000] + "\n…\n" + s[len(s)-600:]
 }
